@@ -58,6 +58,7 @@ type PtrV struct { // pointer to a struct object (input objects are lazily mater
 type FuncV struct {
 	Fn   *ssa.Function
 	Bind []Val
+	Nil  string // "" = never nil; otherwise the condition under which this function value is nil (var f func(); if c { f = ... })
 }
 type TupleV []Val
 
